@@ -24,6 +24,8 @@ E_sub(k)   == O("v2", "sub",   Pos(<<IF k = 1 THEN "p" ELSE "q", "p">>), "int")
 E_subn(k)  == O("v2", "sub",   Pos(<<IF k = 1 THEN "p" ELSE "q", "p">>), "absent")   \* subscribe by notification
 E_unsub(k) == O("v2", "unsub", Pos(<<IF k = 1 THEN "p" ELSE "q", "p">>), "str")
 
+E_boom(k)  == O("v2", "boom",  Pos(<<IF k = 1 THEN "p" ELSE "q", "p">>), "int")    \* unserialisable result; k = 2: long error text
+
 S(e) == Fr("single", <<e>>)
 B(s) == Fr("batch", s)
 Garbage == Fr("garbage", <<>>)
@@ -34,7 +36,10 @@ BigTail == Fr("bigtail", <<E_ok>>)
 FramesCore == {S(E_ok), S(E_notif), S(E_nometh), Garbage, B(<<E_ok, E_notif>>),
                S(E_sub(1)), S(E_sub(2)), S(E_unsub(1))}
 FramesSubs == {S(E_ok), B(<<E_sub(1), E_ok>>), S(E_sub(1)), S(E_subn(2)), S(E_unsub(1)), S(E_unsub(2))}
-FramesEnd  == {S(E_ok), S(E_notif), B(<<E_ok, E_sub(2)>>), S(E_sub(1)), S(E_unsub(1)), Big, BigTail}
+FramesEnd  == {S(E_ok), S(E_notif), B(<<E_ok, E_sub(2)>>), S(E_sub(1)), S(E_unsub(1)), Big, BigTail, S(E_boom(1)), S(E_boom(2))}
+FramesEnd3 == {S(E_ok), B(<<E_ok, E_sub(2)>>), S(E_sub(1)), Big, BigTail, S(E_boom(2))}
+FramesBoom == {S(E_ok), S(E_sub(1)), S(E_boom(1)), S(E_boom(2))}
+FramesLive == {S(E_sub(1)), B(<<E_ok, E_sub(1)>>), Big, S(E_boom(2))}
 FramesMutex == {S(E_ok), S(E_sub(1)), S(E_sub(2)), B(<<E_ok, E_ok>>)}
 
 (* content: every answer class of C11, singly and in batches *)
